@@ -46,8 +46,8 @@ class EdgeContribution(Contract):
 
     def loop_specs(self):
         def inv(L):
-            return [('count_is_the_sum_of_the_interval_lengths_so_far', L.env['count'].z == L.ctx.ec.sumlen(L.k))]
-        return {'timeline:interval': LoopSpec(inv, modifies={}, tags=('C17',))}
+            return [('count_is_the_sum_of_the_interval_lengths_so_far', L.env[L.augmented[0]].z == L.ctx.ec.sumlen(L.k))]
+        return {'timeline/1': LoopSpec(inv, modifies={}, tags=('C17',))}
 
     def finish(self, ctx, c, outcome):
         T = ('C17',)
